@@ -32,7 +32,7 @@ QUICK_MC = {"C01": ["MC_Log_quick.cfg", "MC_Log_inline_quick.cfg"], "C02": ["MC_
             "C05": ["MC_Log_quick.cfg", "MC_Log_inline_quick.cfg"], "C06": ["MC_Log_quick.cfg", "MC_Log_crashread_quick.cfg"]}
 ALL_QUICK = ["MC_Log_quick.cfg", "MC_Log_inline_quick.cfg", "MC_Log_read_quick.cfg", "MC_Log_crashread_quick.cfg", "MC_Log_shapes_quick.cfg"]
 THOROUGH_MC = ALL_QUICK + ["MC_Log_thorough.cfg", "MC_Log_3p_thorough.cfg", "MC_Log_read_thorough.cfg"]
-SIMS = {"Sim_Log_a.cfg": (0, 1), "Sim_Log_b.cfg": (2, 2), "Sim_Log_c.cfg": (3, 3)}
+SIMS = {"Sim_Log_a.cfg": (0, 1), "Sim_Log_b.cfg": (2, 2), "Sim_Log_c.cfg": (3, 3), "Sim_Log_d.cfg": (0, 2)}  # d: 8 producers, many batches per segment
 DEV_PARAMS = {"NoRange": (0, 2)}
 
 
@@ -83,8 +83,9 @@ def gen_schedules(ctx, d):
     return scheds, labels, sorted(devs)
 
 
+FIX_INDEX_SEARCH = "TRUE"
 TRACE_CFG = """CONSTANTS
- Producers = {"p1","p2","p3"}
+ Producers = {"p1","p2","p3","p4","p5","p6","p7","p8"}
  K = 1000
  Shapes <- ShAll
  MaxFaults = 1000
@@ -97,6 +98,7 @@ TRACE_CFG = """CONSTANTS
  FixMonotone = TRUE
  FixReadOrder = TRUE
  FixRange = TRUE
+ FixIndexSearch = %s
  FixValidate = TRUE
  DevNoWait = FALSE
  DevCommitBeforeIndex = FALSE
@@ -117,7 +119,7 @@ def conformance(ctx, scheds, runs):
     groups = sorted({(s["inline"], s["interval"]) for s in scheds})
     for (inl, itv) in groups:
         sub = [r for i, run in enumerate(runs) if (scheds[i]["inline"], scheds[i]["interval"]) == (inl, itv) for r in run]
-        reached, total, res = layers.conform(ctx, DIR, "MC_Trace_Log.tla", "Trace_Log.cfg", sub, name="conf-%d-%d" % (inl, itv), cfg_text=TRACE_CFG % (inl, itv), timeout=1800)
+        reached, total, res = layers.conform(ctx, DIR, "MC_Trace_Log.tla", "Trace_Log.cfg", sub, name="conf-%d-%d" % (inl, itv), cfg_text=TRACE_CFG % (inl, itv, FIX_INDEX_SEARCH), timeout=1800)
         conf["lines"] += total
         if reached == total:
             conf["accepted"] += sum(1 for s in scheds if (s["inline"], s["interval"]) == (inl, itv))
